@@ -165,6 +165,15 @@ def _entry_as_lambda(repo: Repo, v: ast.expr, imports: Dict[str, str], shadowed:
     read as the lambda it denotes: the factory's parameters are replaced by the arguments, and a call of an operator-module
     comparison function (by import identity) is written as the comparison."""
     from ..pyfacts import clone
+    # a named module function whose body is one `return <expr>` is the lambda of its parameters
+    if isinstance(v, ast.Name) and repo.has_func(EXPR, v.id):
+        fdef = repo.func(EXPR, v.id)
+        body0 = [b for b in fdef.body if not (isinstance(b, ast.Expr) and isinstance(b.value, ast.Constant))]
+        if len(body0) == 1 and isinstance(body0[0], ast.Return) and body0[0].value is not None and not fdef.decorator_list \
+                and not (fdef.args.vararg or fdef.args.kwarg or fdef.args.kwonlyargs or fdef.args.defaults):
+            v = ast.Lambda(args=ast.arguments(posonlyargs=[], args=[ast.arg(arg=a.arg) for a in fdef.args.posonlyargs + fdef.args.args], kwonlyargs=[],
+                                              kw_defaults=[], defaults=[]), body=clone(body0[0].value))
+            ast.fix_missing_locations(v)
     if isinstance(v, ast.Call) and isinstance(v.func, ast.Name) and repo.has_func(EXPR, v.func.id) and not v.keywords:
         fac = repo.func(EXPR, v.func.id)
         body = [b for b in fac.body if not (isinstance(b, ast.Expr) and isinstance(b.value, ast.Constant))]
@@ -264,7 +273,8 @@ def _unbounded_decimal_decoder(repo: Repo, fname: str) -> Optional[str]:
     if not repo.has_func(PARSER, fname):
         return f'{fname} is not a function of the parser module'
     from ..pyfacts import normalize_counting_whiles, resolve_names
-    fn = normalize_counting_whiles(repo.func(PARSER, fname))          # `i = 0; while i < n: ..; i += K` reads as range(0, n, K)
+    from ..pyfacts import inline_module_constants as _imc
+    fn = normalize_counting_whiles(_imc(repo, PARSER, repo.func(PARSER, fname)))          # `i = 0; while i < n: ..; i += K` reads as range(0, n, K); a module-level chunk width as its literal
     ps = [a.arg for a in fn.args.args]
     body = [st for st in fn.body if not (isinstance(st, ast.Expr) and isinstance(st.value, ast.Constant))]
     if len(ps) != 1 or len(body) != 1 or not isinstance(body[0], ast.Try):
@@ -482,6 +492,33 @@ def rule_literals(rep: Report, repo: Repo) -> None:
                 init = [norm(x.value) for x in st.body if isinstance(x, ast.Assign) and norm(x.targets[0]) == acc]
                 if init == ['0'] and packs == [acc]:
                     fold = (n.target.id, '__v', _Val(n.target.id).visit(clone(summand)), 'loop')
+    in_loop = False
+    if fold is None:
+        # the same fold kept by hand inside the scanning loop: `acc += F(val, k); k += 1` with acc = 0, k = 0 before the loop, val the
+        # character decoded in this iteration, and t.value = acc after it
+        for lp in [x for x in ast.walk(st) if isinstance(x, ast.While)]:
+            dec_names = [t_.elts[0].id for b in lp.body if isinstance(b, ast.Assign) and len(b.targets) == 1 and isinstance(b.value, ast.Call)
+                         and dotted(b.value.func) == 'get_char_value_and_length' for t_ in b.targets
+                         if isinstance(t_, ast.Tuple) and len(t_.elts) == 2 and isinstance(t_.elts[0], ast.Name)]
+            accs = [(j, b) for j, b in enumerate(lp.body) if isinstance(b, ast.AugAssign) and isinstance(b.op, (ast.Add, ast.BitOr)) and isinstance(b.target, ast.Name)
+                    and any(isinstance(x, ast.Name) and x.id in dec_names for x in ast.walk(b.value))]
+            if len(dec_names) != 1 or len(accs) != 1:
+                continue
+            j_acc, b_acc = accs[0]
+            ks = [(j, b) for j, b in enumerate(lp.body) if isinstance(b, ast.AugAssign) and isinstance(b.op, ast.Add) and isinstance(b.target, ast.Name)
+                  and isinstance(b.value, ast.Constant) and b.value.value == 1 and any(isinstance(x, ast.Name) and x.id == b.target.id for x in ast.walk(b_acc.value))]
+            if len(ks) != 1:
+                continue
+            j_k, b_k = ks[0]
+            acc, k = b_acc.target.id, b_k.target.id
+            def _inits(nm: str) -> List[str]:
+                return [norm(x.value) for x in st.body if isinstance(x, ast.Assign) and norm(x.targets[0]) == nm]
+            stores_k = [x for x in ast.walk(st) if isinstance(x, ast.Name) and x.id == k and isinstance(x.ctx, ast.Store)]
+            stores_a = [x for x in ast.walk(st) if isinstance(x, ast.Name) and x.id == acc and isinstance(x.ctx, ast.Store)]
+            if _inits(acc) == ['0'] and _inits(k) == ['0'] and len(stores_k) == 2 and len(stores_a) == 2 and packs == [acc] and j_acc < j_k \
+                    and not any(isinstance(x, (ast.Continue, ast.Break)) for x in ast.walk(lp)):
+                fold = (k, dec_names[0], b_acc.value, 'in-loop')
+                in_loop = True
     wrong = []
     if fold is not None:
         for i in range(6):
@@ -491,7 +528,7 @@ def rule_literals(rep: Report, repo: Repo) -> None:
                     wrong.append(f'index {i}, value {v:#x}: {got:#x}')
     rep.check(fold is not None and not wrong, 'C12.LITERALS', 'STRING packing', f'{fold[3] if fold else packs}: ' + (wrong[0] if wrong else 'value << 8*index'),
               f'{PARSER}:{st.lineno}', expected='sum(val << (8*i)) over characters in order')
-    app = any(isinstance(c, ast.Call) and norm(c) == 'chars.append(val)' for c in ast.walk(st))
+    app = in_loop or any(isinstance(c, ast.Call) and norm(c) == 'chars.append(val)' for c in ast.walk(st))
     rep.check(app and "s = t.value[1:-1]" in [norm(n) for n in ast.walk(st) if isinstance(n, ast.Assign)], 'C12.LITERALS', 'STRING scan',
               'characters decoded left to right from the text between the quotes', f'{PARSER}:{st.lineno}')
 
